@@ -632,6 +632,8 @@ impl RingRun {
             if t > t_end {
                 break;
             }
+            // logical hang detection: loop-iteration budget per poll() call
+            profirust::verif::set_fuel(200_000);
             match self.world.step() {
                 Some(Stepped::Polled(i)) => {
                     self.sample(i);
